@@ -2,6 +2,7 @@
   Kernel tie: `OrderBookParticipation.SetLiquidityAfterWithdrawal` = the record update of the model's `Book.withdraw`.
 -/
 import Sge.Gen.Kernels
+import SgeProofs.Lemmas.KernelsTie
 import Sge.Core.Orderbook
 namespace Sge.KernelsTie
 open Sge Sge.Core Sge.Gen.Kernels
@@ -14,8 +15,7 @@ theorem krn_tie_LiquidityAfterWithdrawal (p : Part) (w : Int) :
       = { p with crl := p.crl - w, liq := p.liq - w } := by
   first
     | rfl
-    | (unfold orderbook_OrderBookParticipation_SetLiquidityAfterWithdrawal
-       simp only [Part.mk.injEq, true_and, and_true]; constructor <;> omega)
+    | (unfold orderbook_OrderBookParticipation_SetLiquidityAfterWithdrawal; krn_close [Part.mk.injEq])
 
 example : orderbook_OrderBookParticipation_SetLiquidityAfterWithdrawal 100 60 25 = (75, 35) := by decide +kernel
 
